@@ -383,4 +383,5 @@ func checkC12(w *World) {
 	delete(w.floors, P+"|R06.4")
 	delete(w.floors, P+"|R06.6")
 	w.floor(P, "R12.3", 3)
+	w.include(P, "C07", "R07.7") // default: the context node - only without an argument
 }
